@@ -393,7 +393,9 @@ func TestC09CloseAtRetry(t *testing.T) {
 			var peers []*netsim.Peer
 			var hist []string
 			t0 := time.Now()
-			logf := func(f string, a ...any) { hist = append(hist, fmt.Sprintf("+%v ", time.Since(t0))+fmt.Sprintf(f, a...)) }
+			logf := func(f string, a ...any) {
+				hist = append(hist, fmt.Sprintf("+%v ", time.Since(t0))+fmt.Sprintf(f, a...))
+			}
 			fail := func(f string, a ...any) {
 				var evs []string
 				for _, e := range w.nw.Events() {
@@ -629,7 +631,9 @@ func TestC09BusyHandlerEnd(t *testing.T) {
 			if active {
 				role = "active"
 			}
-			ev.Case(true, fmt.Sprint(active, busy, n, end), func() any { return fmt.Sprintf("%s, handler busy %v, %d waiting sends, ended by %s", role, busy, n, end) }, "c09h:end:"+end)
+			ev.Case(true, fmt.Sprint(active, busy, n, end), func() any {
+				return fmt.Sprintf("%s, handler busy %v, %d waiting sends, ended by %s", role, busy, n, end)
+			}, "c09h:end:"+end)
 		})
 	})
 }
